@@ -182,6 +182,7 @@ class Sim:
         self.run_steps = {}
         self.run_classes = {}
         self.crash_done = False
+        self.sq_budget = (scen.get("faults") or {}).get("squeue_fail_budget", 10**9)
         self.cc_pid = None
         self.cc_steps = 0
         self.cmd_classes = []
@@ -751,8 +752,9 @@ class Sim:
         self.shared_event(a, "squeue", "")
         fa = self.fault_at(a, msg, "squeue")
         f = self.scen.get("faults") or {}
-        if fa == "fail" or (f.get("squeue_fail") and self.rng.random() < f["squeue_fail"]):
+        if fa == "fail" or (f.get("squeue_fail") and self.sq_budget > 0 and self.rng.random() < f["squeue_fail"]):
             if not fa:
+                self.sq_budget -= 1  # transient: the scheduler recovers after a bounded number of failed queries
                 self.faults_injected.append(("squeue_fail", a.host))
             self.log("SQUEUE_FAIL", a.host)
             if r is not None:
@@ -1464,6 +1466,10 @@ class Sim:
             o = self.observe("after recovery") or (self.obs[-1] if self.obs else None)
             made = len(self.sbatches) > rc[1]
             done = bool(o and o["complete"])
+            hit_by_squeue = len(rc) > 2 and len(self.faults_injected) > rc[2] and all(str(f_[0]).startswith("squeue") for f_ in self.faults_injected[rc[2]:])
+            if hit_by_squeue and not made and not done:
+                self.recover_check = None  # the recovery command itself was hit by the (transient) scheduler-query failure: try again
+                return
             if rc[0] not in self.top_promoted:
                 # refused: another process held the role during this attempt; progress is that process's business
                 self.refused_recoveries += 1
@@ -1476,7 +1482,10 @@ class Sim:
             if not made and not done and self.ff_now:
                 self.viol("C05", "recovery-no-progress", f"recovery round {rc[0]} (exit {self.top_rc[rc[0]]}) neither handed a batch to the HPC nor completed the submission")
             if not made and not done:
-                self.stuck = True
+                if len(rc) > 2 and len(self.faults_injected) > rc[2] and all(str(f_[0]).startswith("squeue") for f_ in self.faults_injected[rc[2]:]):
+                    pass  # this recovery round itself was hit by the (transient) scheduler-query failure: try again
+                else:
+                    self.stuck = True
             self.recover_check = None
 
     def on_idle(self):
@@ -1517,7 +1526,7 @@ class Sim:
             self.spawn_top(tag, ["jade", "show-status", "-o", self.outname, "-n"], host)
         else:
             self.spawn_top(tag, ["jade", "try-submit-jobs", self.outname], host)
-        self.recover_check = (tag, len(self.sbatches))
+        self.recover_check = (tag, len(self.sbatches), len(self.faults_injected))
         return True
 
     # ------------------------------------------------------------------ entry points
@@ -1602,7 +1611,7 @@ class Sim:
             n0 = len(self.violations)
             self.final_ff(final, missing, complete, placed)
             for v in self.violations[n0:]:
-                v["text"] = f"after a transient squeue failure ({self.faults_injected[0][2]}): [{v['prop']}:{v['key']}] {v['text']}"
+                v["text"] = f"after a transient squeue failure ({self.faults_injected[0][-1]}; {len(self.faults_injected)} failed calls): [{v['prop']}:{v['key']}] {v['text']}"
                 v["prop"], v["key"] = "C11", "squeue-failure-not-transient"
         elif self.ff_now and not canceled_run and not scen.get("cycle") and self.cancel_started is None:
             self.final_ff(final, missing, complete, placed)
